@@ -99,6 +99,53 @@ def rank_availability(f, d):
     return probs
 
 
+def fiber_availability(f, d=None):
+    """independent reading of a second class of data dependences: `Tensor.fromFiber` on rank R of tensor T (a dynamic partitioning
+    inside the loop nest) consumes T's fiber AT rank R, so the statement that produces that fiber must be among its ancestors:
+    the root of a rank order that starts with R, or the loop / the getPayload over the rank written immediately before R"""
+    import re
+    import networkx as nx
+    g = nx.DiGraph()
+    g.add_nodes_from(range(len(f["nodes"])))
+    g.add_edges_from((a, b) for a, b in f["edges"])
+    lst = lambda s: [x.strip().strip("'") for x in s.split(",") if x.strip()]
+    orders = {}
+    for n in f["nodes"]:
+        m = re.fullmatch(r"\((?:GetRootNode|SwizzleNode), (\w+), \[(.*?)\](?:, [\w-]+)?\)", n)
+        if m:
+            orders.setdefault(m.group(1), []).append(lst(m.group(2)))
+    probs = []
+    for i, n in enumerate(f["nodes"]):
+        m = re.fullmatch(r"\(FromFiberNode, (\w+), (\w+)\)", n)
+        if not m:
+            continue
+        t, r = m.group(1), m.group(2)
+        before = {o[k - 1] for o in orders.get(t, []) for k in range(1, len(o)) if o[k] == r}
+        # a rank that follows another one is iterated by the loop over the rank it follows (W2 by Q2)
+        for einsum_parts in (((d or {}).get("mapping") or {}).get("partitioning") or {}).values():
+            for key, stack in (einsum_parts or {}).items():
+                for dirv in stack or []:
+                    mf = re.fullmatch(r"follow\((\w+)\)", str(dirv))
+                    if mf:
+                        before |= {mf.group(1) + b[len(str(key)):] for b in before if b.startswith(str(key)) and re.fullmatch(r"\d*I?", b[len(str(key)):])}
+        ok = False
+        for a in nx.ancestors(g, i):
+            an = f["nodes"][a]
+            m2 = re.fullmatch(r"\(GetRootNode, (\w+), \[(.*)\]\)", an)
+            if m2 and m2.group(1) == t and lst(m2.group(2))[:1] == [r]:
+                ok = True
+            m2 = re.fullmatch(r"\(GetPayloadNode, (\w+), \[(.*)\]\)", an)
+            if m2 and m2.group(1) == t and lst(m2.group(2))[-1:] and lst(m2.group(2))[-1] in before:
+                ok = True
+            m2 = re.fullmatch(r"\(LoopNode, (\w+)\)", an)
+            if m2 and m2.group(1) in before:
+                ok = True
+        if not ok:
+            probs.append("%s consumes the fiber of %s at rank %s, but no statement producing that fiber (root at %s, loop or getPayload over %s) is among its ancestors"
+                         % (n, t, r, r, sorted(before)))
+    return probs
+
+
 def run(ctx):
     ctx.rule = ("flow graphs of corpus + generated G1-G5 (plain) and G7/corpus (metrics) specifications, exported before/after hoisting through the public IR; "
                 "plus random DAGs with a loop chain and a random topological order driven through the real __hoist; non-trivial = at least one loop and one hoistable node; distinct = distinct (edges, order)")
@@ -107,7 +154,7 @@ def run(ctx):
     k = 1 if ctx.tier == "quick" else 6
     items = [dict(gen="corpus", count=0, modes=["plain", "metrics"], flow=True),
              dict(gen="g1", count=25 * k, modes=["plain"], flow=True), dict(gen="g2", count=25 * k, modes=["plain"], flow=True),
-             dict(gen="g3", count=25 * k, modes=["plain"], flow=True), dict(gen="g3", count=12 * k, modes=["plain"], flow=True, opts={"variant": "occ2"}), dict(gen="g3z", count=10 * k, modes=["plain"], flow=True), dict(gen="g3u", count=15 * k, modes=["plain"], flow=True), dict(gen="g3v", count=8 * k, modes=["plain"], flow=True), dict(gen="g4", count=30 * k, modes=["plain"], flow=True), dict(gen="g4b", count=40 * k, modes=["plain"], flow=True),
+             dict(gen="g3", count=25 * k, modes=["plain"], flow=True), dict(gen="g3", count=12 * k, modes=["plain"], flow=True, opts={"variant": "occ2"}), dict(gen="g3z", count=10 * k, modes=["plain"], flow=True), dict(gen="g3u", count=15 * k, modes=["plain"], flow=True), dict(gen="g3dd", count=8 * k, modes=["plain"], flow=True), dict(gen="g3v", count=8 * k, modes=["plain"], flow=True), dict(gen="g4", count=30 * k, modes=["plain"], flow=True), dict(gen="g4b", count=40 * k, modes=["plain"], flow=True),
              dict(gen="g5", count=10 * k, modes=["plain"], flow=True)]
     if c06.has_g7():
         items.append(dict(gen="g7", count=25 * k, modes=["metrics"], flow=True))
@@ -140,6 +187,10 @@ def run(ctx):
             continue
         probs = rank_availability(f, r["yaml"])
         ctx.ob(not probs); ctx.stat("rank_availability_checked")
+        probs2 = fiber_availability(f, r["yaml"])
+        if any("FromFiberNode" in n for n in f["nodes"]):
+            ctx.ob(not probs2); ctx.stat("fiber_availability_checked")
+        probs = probs + probs2
         if probs:
             pos = {n: i for i, n in enumerate(f["sorted1"])}
             ctx.violation(dict(kind="missing-dependence", origin=dict(origin=origin, yaml=r["yaml"], mode=r["mode"]), flow=f, reason="; ".join(probs[:3]),
@@ -163,6 +214,14 @@ def run(ctx):
 
 def replay(ctx, path):
     rep = json.load(open(path))
+    if rep.get("kind") == "missing-dependence":
+        o = rep["origin"]
+        for f in flow.flow_info(o["yaml"], o["mode"]):
+            probs = rank_availability(f, o["yaml"]) + fiber_availability(f, o["yaml"])
+            ctx.ob(not probs)
+            if probs:
+                ctx.violation(dict(kind="missing-dependence", origin=o, flow=f, reason="; ".join(probs[:3]), obligation=rep.get("obligation")), True)
+        return ctx.finish()
     if rep.get("kind") != "hoist":
         return c06.replay(ctx, path)
     o = rep["origin"]
